@@ -23,6 +23,12 @@ def bytesToString (b : Bytes) : String := String.ofList (b.map fun x => Char.ofN
 def covered : List String := ["Content-Length", "Content-Md5", "Content-Type", "Date", "Authorization", "X-Forwarded-User",
   "X-Forwarded-Email", "X-Forwarded-Groups", "X-Forwarded-Access-Token", "Cookie"]
 
+/-- `textproto.CanonicalMIMEHeaderKey` for the token characters configuration keys are made of: first letter and every letter
+    after a '-' upper-case, the rest lower-case (`Header.Set` stores under this spelling). -/
+def canonKey (s : String) : String :=
+  String.ofList (s.toList.foldl (fun (acc : List Char × Bool) c =>
+    (acc.1 ++ [if acc.2 then c.toUpper else c.toLower], c == '-')) ([], true)).1
+
 def checkCase (j : Json) : Except String Verdict := do
   let cfg ← jget j "cfg"
   let mut v : Verdict := {}
@@ -30,7 +36,7 @@ def checkCase (j : Json) : Except String Verdict := do
   let signer := boolD cfg "signer"
   let hmac := boolD cfg "hmac"
   let inject : List (String × String) := match cfg.getObjVal? "inject" with
-    | .ok (.obj kvs) => kvs.foldl (init := []) fun acc k v => acc ++ [(k, v.getStr?.toOption.getD "")]
+    | .ok (.obj kvs) => kvs.foldl (init := []) fun acc k v => acc ++ [(canonKey k, v.getStr?.toOption.getD "")]
     | _ => []
   let c : Forward.Cfg := { cookieName := "_sso_proxy", inject := inject }
   -- overlapping uploads: the pipeline is a function of each request alone, so each backend receives exactly the body that
